@@ -412,10 +412,10 @@ def run(rep):
                'pre-state = ARBITRARY pixel dictionary over the universe (also with ancestor/descendant duplicates, reachable through add_pixels), '
                'cache either empty or in the state a query leaves behind; a pre-state is rebuilt through the public API before a model is reported')
     workers = 16
-    depths = [2, 3]
+    depths = [1, 2, 3]
     K = rep.kernel('K-step', functions=[F + ':Region.union', F + ':Region.without', F + ':Region.intersect', F + ':Region.symmetric_difference',
                                         F + ':Region.add_pixels', F + ':Region._renorm', F + ':Region._demote_all', F + ':Region.get_demoted', F + ':Region.get_area', F + ':Region.sky_within'],
-                   bounds='maxdepth D in {2,3}%s; universe: all 1+4+16(+64) pixels below level-1 pixel 0; operand depth D-1, D, D+1; every membership bit symbolic (all 2^21 x 2^21 region pairs at D=3)' % (' and 4 (level-2 subtree)' if thorough else ''),
+                   bounds='maxdepth D in {1,2,3}%s; universe: all 1+4+16(+64) pixels below level-1 pixel 0; operand depth D-1, D, D+1, D+2 (finer operands in normal form and demoted); every membership bit symbolic (all 2^21 x 2^21 region pairs at D=3)' % (' and 4 (level-2 subtree)' if thorough else ''),
                    stubs=['set/len/int/sorted -> guarded finite sets (symx.symset)', 'healpy.nside2pixarea: real library on concrete nside', 'np.isin -> per-element guard disjunction', 'healpy.ang2pix: real library on concrete points'],
                    outside=['pickle round trip (library)', 'depth > 4', 'circle/polygon construction (C09)'])
     cases = []
@@ -427,8 +427,8 @@ def run(rep):
                     cases.append((h_binop(reg, op, D, uni, cA, cB), dict(op=op, D=D, odepth=D, cachedA=cA, cachedB=cB, renorm=True)))
         for cA in (False, True):
             cases.append((h_binop(reg, 'union', D, uni, cA, False, renorm=False), dict(op='union', D=D, odepth=D, cachedA=cA, cachedB=False, renorm=False)))
-            for od in (D - 1, D + 1):
-                if od >= 1 and (od <= 3 or thorough or D == 2):
+            for od in (D - 1, D + 1, D + 2):
+                if od >= 1 and (od <= 4 or thorough):
                     cases.append((h_binop(reg, 'union', D, uni, cA, False, odepth=od), dict(op='union', D=D, odepth=od, cachedA=cA, cachedB=False, renorm=True)))
             cases.append((h_query(reg, D, uni, cA), dict(op='query', D=D, cachedA=cA)))
             for dep in range(1, D + 1):
